@@ -1,6 +1,7 @@
 package world
 
 import (
+	"bufio"
 	"bytes"
 	"context"
 	"encoding/base64"
@@ -8,6 +9,7 @@ import (
 	"fmt"
 	"io"
 	"log/slog"
+	"net"
 	"net/http"
 	"net/url"
 	"os"
@@ -636,6 +638,18 @@ func (o *origin) RoundTrip(req *http.Request) (*http.Response, error) {
 	reason := rp.Reason
 	if reason == "" {
 		reason = http.StatusText(status)
+	}
+	if w.sc.Wire {
+		resp, err := w.wireRoundTrip(req, rp, status, reason, hdr, call)
+		call.EndNs = w.now()
+		call.EndSeq = w.seq.Add(1)
+		call.Completed = true
+		if err != nil {
+			call.Kind = "err"
+			return nil, err
+		}
+		call.RespHdr = resp.Header.Clone()
+		return resp, nil
 	}
 	resp := &http.Response{
 		Status:     strconv.Itoa(status) + " " + reason,
@@ -1393,4 +1407,133 @@ func (w *World) controlLoop(wg *sync.WaitGroup) {
 	}
 	w.pending = nil
 	w.mu.Unlock()
+}
+
+// ---------------------------------------------------------------------------
+// wire mode: a real http.Transport reads generated raw HTTP/1.x bytes from an in-memory pipe
+
+func buildWire(rp *Reply, status int, reason string, hdr http.Header, body []byte, method string, serial int, nowNs int64) (head, payload []byte) {
+	var b bytes.Buffer
+	proto := "HTTP/1.1"
+	shape := rp.Shape
+	switch shape {
+	case "http10":
+		proto = "HTTP/1.0"
+	case "h2":
+		shape = "cl"
+	case "h2nolen":
+		shape = "chunked"
+	case "nobody":
+		shape = "cl"
+	}
+	fmt.Fprintf(&b, "%s %d %s\r\n", proto, status, reason)
+	// header lines in the scripted order (X-Tok / X-Val last)
+	written := map[string]bool{}
+	for _, kv := range rp.Header {
+		k := http.CanonicalHeaderKey(kv[0])
+		if k == "Content-Length" && status != http.StatusNotModified {
+			continue
+		}
+		fmt.Fprintf(&b, "%s: %s\r\n", k, subst(kv[1], serial, nowNs))
+		written[k] = true
+	}
+	for _, k := range []string{"X-Tok", "X-Val"} {
+		if v := hdr.Get(k); v != "" && !written[k] {
+			fmt.Fprintf(&b, "%s: %s\r\n", k, v)
+		}
+	}
+	noBody := body == nil || method == http.MethodHead
+	switch {
+	case noBody:
+		if status != http.StatusNotModified && status/100 != 1 && status != 204 && method != http.MethodHead {
+			b.WriteString("Content-Length: 0\r\n")
+		}
+		b.WriteString("\r\n")
+		return b.Bytes(), nil
+	case shape == "chunked":
+		b.WriteString("Transfer-Encoding: chunked\r\n")
+		if len(rp.Trailer) > 0 {
+			b.WriteString("Trailer: ")
+			for i, kv := range rp.Trailer {
+				if i > 0 {
+					b.WriteString(", ")
+				}
+				b.WriteString(kv[0])
+			}
+			b.WriteString("\r\n")
+		}
+		b.WriteString("\r\n")
+		var p bytes.Buffer
+		sizes := []int{1, 7, 4096, 3, 65536}
+		rest := body
+		for i := 0; len(rest) > 0; i++ {
+			n := sizes[(i+int(rp.Body.Seed))%len(sizes)]
+			if n > len(rest) {
+				n = len(rest)
+			}
+			fmt.Fprintf(&p, "%x\r\n", n)
+			p.Write(rest[:n])
+			p.WriteString("\r\n")
+			rest = rest[n:]
+		}
+		p.WriteString("0\r\n")
+		for _, kv := range rp.Trailer {
+			fmt.Fprintf(&p, "%s: %s\r\n", kv[0], subst(kv[1], serial, nowNs))
+		}
+		p.WriteString("\r\n")
+		return b.Bytes(), p.Bytes()
+	case shape == "close" || shape == "http10":
+		if shape == "close" {
+			b.WriteString("Connection: close\r\n")
+		}
+		b.WriteString("\r\n")
+		return b.Bytes(), body
+	default:
+		fmt.Fprintf(&b, "Content-Length: %d\r\n\r\n", len(body))
+		return b.Bytes(), body
+	}
+}
+
+func (w *World) wireRoundTrip(req *http.Request, rp *Reply, status int, reason string, hdr http.Header, call *Call) (*http.Response, error) {
+	head, payload := buildWire(rp, status, reason, hdr, call.Body, req.Method, call.Serial, w.now())
+	// a failing body: the connection is cut after FailAt-1 payload bytes
+	if rp.Body.FailAt > 0 && payload != nil {
+		k := rp.Body.FailAt - 1
+		if k < len(payload) {
+			payload = payload[:k]
+			if rp.Shape == "close" || rp.Shape == "http10" {
+				// a close-delimited body cut short is indistinguishable from a complete shorter
+				// body: that shorter body is what the origin "sent"
+				call.Body = append([]byte(nil), payload...)
+				call.FailAt = 0
+			} else {
+				call.FailAt = 1 // any cut inside a length-delimited or chunked body is a read error
+			}
+		} else {
+			call.FailAt = 0
+		}
+	} else {
+		call.FailAt = 0
+	}
+	dial := func(ctx context.Context, network, addr string) (net.Conn, error) {
+		c1, c2 := net.Pipe()
+		go func() {
+			defer c2.Close()
+			br := bufio.NewReader(c2)
+			rq, err := http.ReadRequest(br)
+			if err != nil {
+				return
+			}
+			_, _ = io.Copy(io.Discard, rq.Body)
+			if _, err := c2.Write(head); err != nil {
+				return
+			}
+			if len(payload) > 0 {
+				_, _ = c2.Write(payload)
+			}
+		}()
+		return c1, nil
+	}
+	tr := &http.Transport{DisableKeepAlives: true, DisableCompression: true, DialContext: dial, DialTLSContext: dial}
+	return tr.RoundTrip(req)
 }
